@@ -8,7 +8,8 @@
 EXTENDS PickleVM, Verdict
 
 CONSTANTS PollutedDedup,    \* TRUE: BadCalls registers every call text before OvertlyBadEvals looks (the pinned defect)
-          BadCallsExempt    \* TRUE: BadCalls also skips calls whose name is bound by a standard-library import (a mutated design)
+          BadCallsExempt,   \* TRUE: BadCalls also skips calls whose name is bound by a standard-library import (a mutated design)
+          DottedExempt      \* TRUE: the exemption looks at the first component of a dotted callee (a mutated design)
 
 IsStd(m) == ModCat(m) \in {"benign_std", "dangerous"} /\ m \notin {"dill", "dill._dill", "torch.hub", "torch.hub.x"}
 Emitted(e) == e.e = "import" /\ e.m # "builtins"          \* the decompiler emits no import for builtins
@@ -19,7 +20,8 @@ NonStd(e)        == IF Emitted(e) /\ ~IsStd(e.m) THEN LIKELY_UNSAFE ELSE LIKELY_
 UnsafeImport(e)  == IF Emitted(e) /\ (ModCat(e.m) = "dangerous" \/ e.n = "eval") THEN LIKELY_OVERTLY_MALICIOUS ELSE LIKELY_SAFE
 \* BadCalls: the call text starts with exec( eval( compile( open(  -- the bare name, whatever the module
 \* OvertlyBadEvals: every other call whose name is not bound by a standard-library import
-Exempt(e)        == e.f.k = "g" /\ e.f.m # "builtins" /\ IsStd(e.f.m)
+\* (a dotted callee is an attribute access in the decompiled program, not a bare name: never exempt as coded)
+Exempt(e)        == e.f.k = "g" /\ e.f.m # "builtins" /\ IsStd(e.f.m) /\ (e.f.n \notin Dotted \/ DottedExempt)
 BadCall(e)       == IF e.e = "call" /\ e.f.k = "g" /\ e.f.n \in Evalish /\ ~(BadCallsExempt /\ Exempt(e))
                     THEN OVERTLY_MALICIOUS ELSE LIKELY_SAFE
 OvertlyBad(e)    == IF e.e # "call" \/ Exempt(e) THEN LIKELY_SAFE
